@@ -47,7 +47,7 @@ def run(ctx, prop, bias):
     env = {"VERIF_SCRIPTS": scripts, "VERIF_BIAS": bias,
            "VERIF_SLICE": 1 if ctx.thorough else 16,
            "VERIF_RANDOM": 60000 if ctx.thorough else 3000,
-           "VERIF_BIG": 300 if ctx.thorough else 10}
+           "VERIF_BIG": 300 if ctx.thorough else 24}
     crashes = []
     ctx.run_driver(vh, "TestDrv_Attack", out, env, timeout=3000, crash_reports=crashes)
     report_crashes(ctx, crashes, "a goroutine of the attack panicked while a timed script ran")
